@@ -68,6 +68,7 @@ class Index:
         self.records = {}     # qname -> definition node
         self.enums = {}       # qname -> EnumDecl
         self.functions = {}   # qname -> [nodes with body]
+        self._pattern_classes = set()
         self.methods_by_class = {}  # class qname -> {name: count of distinct decls}
         self.lastloc = {}
         self.aliases = {}
@@ -93,6 +94,8 @@ class Index:
                     r = upd(l[sub])
                     if sub == 'expansionLoc':
                         got = r
+            if 'file' in l:
+                self._last_file = l['file']
             if 'line' in l:
                 self._last_line = l['line']
             if 'offset' in l and got is None:
@@ -108,6 +111,7 @@ class Index:
                 b = upd(x['range'].get('begin'))
                 upd(x['range'].get('end'))
             x['_line'] = b if b is not None else self._last_line
+            x['_file'] = getattr(self, '_last_file', None)
             for c in x.get('inner', []):
                 if isinstance(c, dict):
                     walk(c)
@@ -147,23 +151,35 @@ class Index:
                 self.records.setdefault(q if k == 'CXXRecordDecl' else key, n)
         if k == 'EnumDecl':
             self.enums[q] = n
+        if k == 'CXXRecordDecl' and getattr(self, '_spec_depth', 0) == 0:
+            self._pattern_classes.add(q)
         if k in self.SCOPES:
+            if k == 'ClassTemplateSpecializationDecl':
+                self._spec_depth = getattr(self, '_spec_depth', 0) + 1
             for c in n.get('inner', []):
                 if isinstance(c, dict):
                     self._walk(c, q if k != 'EnumDecl' or n.get('scopedEnumTag') else prefix, nid)
+            if k == 'ClassTemplateSpecializationDecl':
+                self._spec_depth -= 1
         elif k in ('CXXMethodDecl', 'FunctionDecl', 'CXXConstructorDecl',
                    'CXXDestructorDecl', 'FunctionTemplateDecl', 'CXXConversionDecl'):
             if k == 'FunctionTemplateDecl':
+                first = True
                 for c in n.get('inner', []):
                     if isinstance(c, dict) and c.get('kind') in ('CXXMethodDecl', 'FunctionDecl'):
+                        # the first is the pattern, the others are its implicit instantiations
+                        self._ftd_inst = not first
+                        first = False
                         self._walk(c, prefix, parent)
+                        self._ftd_inst = False
                 return
             cls = prefix
             self.methods_by_class.setdefault(cls, {}).setdefault(name, set())
-            if not n.get('previousDecl'):
+            if not n.get('previousDecl') and not (getattr(self, '_spec_depth', 0) > 0 and cls in self._pattern_classes):
                 self.methods_by_class[cls][name].add(nid)
             if any(isinstance(c, dict) and c.get('kind') in ('CompoundStmt', 'CXXTryStmt')
                    for c in n.get('inner', [])):
+                n['_inst'] = getattr(self, '_spec_depth', 0) > 0 or getattr(self, '_ftd_inst', False)     # body instantiated inside a class template specialization
                 self.functions.setdefault(q, []).append(n)
         elif k in ('TypeAliasDecl', 'TypedefDecl'):
             t = n.get('type', {})
@@ -286,6 +302,7 @@ class Types:
         self.enum_ctypes = {}
         self.oomd_structs = set()
         self.pair_elems = {}
+        self.tuple_elems = {}
         self.assoc_iter = {}
 
     def note(self, ct, kind, elem=None):
@@ -511,8 +528,10 @@ class Types:
         if name in ('std::atomic', 'std::__atomic_base'):
             return self.ctype(args[0])
         if name == 'std::tuple':
-            cs = [sanitize(self.ctype(a)) for a in args]
-            return self.note('tuple_' + '_'.join(cs), 'value')
+            cts = [self.ctype(a) for a in args]
+            ct = 'tuple_' + '_'.join(sanitize(c) for c in cts)
+            self.tuple_elems[ct] = cts
+            return self.note(ct, 'value')
         if name.startswith('Oomd::'):
             # class template instantiation inside Oomd (e.g. KillPgScan<BaseKillPlugin>)
             return self.oomd_type(name)
@@ -1248,6 +1267,9 @@ class FnEmitter:
         if len(args) == 1:
             act = self.ct(args[0])
             if act == ct:
+                if ct.startswith('vec_') and self.cfg.get('explicit_vec_copy') and args[0].get('valueCategory') == 'lvalue':
+                    # a deep copy that the unit's spec distinguishes from the original (in-place mutation follows)
+                    return '%s__copy(%s)' % (sanitize(ct), self.expr(args[0]))
                 return self.expr(args[0])      # copy / move construction
             a0 = self.strip(args[0])
             while a0.get('kind') == 'ImplicitCastExpr' and a0.get('castKind') in ('ArrayToPointerDecay', 'NoOp'):
@@ -2249,6 +2271,12 @@ class Unit:
             # template instantiation: look under '<spec>' records by walking all functions
             raise Unsupported('function %s not found in AST (have e.g. %s)' % (
                 qname, [k for k in self.index.functions if k.split('::')[-1] == qname.split('::')[-1]][:5]))
+        if pick == 'inst':
+            # the instantiated body of a template member: the candidate without dependent constructs
+            inst = [c for c in cands if c.get('_inst')]
+            if len(inst) != 1:
+                raise Unsupported('function %s: %d instantiated bodies among %d' % (qname, len(inst), len(cands)))
+            return inst[0]
         if pick is not None:
             return cands[pick]
         if len(cands) > 1:
@@ -2285,12 +2313,12 @@ class Unit:
             em = FnEmitter(self, fn, q, cname, self.cfg)
             sig, lines = em.emit_function()
             bo, eo = self.source_range(fn)
-            file_ = fn.get('loc', {}).get('file') or os.path.join(self.repo, self.cfg['tu'])
+            file_ = fn.get('loc', {}).get('file') or fn.get('_file') or os.path.join(self.repo, self.cfg['tu'])
             sha = ''
             line0 = em.loc(fn)
             if bo is not None and eo is not None:
                 try:
-                    data = open(fn.get('loc', {}).get('file', os.path.join(self.repo, self.cfg['tu'])), 'rb').read()
+                    data = open(fn.get('loc', {}).get('file') or fn.get('_file') or os.path.join(self.repo, self.cfg['tu']), 'rb').read()
                     sha = hashlib.sha256(data[bo:eo + 1]).hexdigest()
                 except Exception:
                     sha = ''
